@@ -525,7 +525,7 @@ func init() { //nolint:gochecknoinits
 			for i := 0; i < np; i++ {
 				r := vfNewRand(vfHash(seed, uint64(i), 0xC11F))
 				sp := vfSpec{Prop: "C11", Kind: "window-puppet", ID: fmt.Sprintf("C11-puppet-%d", i), Seed: r.Uint64()}
-				sp.A = vfSideCfg{IL: (i/4)%2 == 1, InitTSN: r.Uint32(), Tag: r.Uint32() | 1, RecvBuf: uint32(r.Pick(1500, 8192, 65536, 200000))} //nolint:gosec
+				sp.A = vfSideCfg{IL: (i/4)%2 == 1, InitTSN: r.Uint32(), Tag: r.Uint32() | 1, RecvBuf: uint32(r.Pick(1500, 8192, 65536, 200000, 0, 300000, 400000, 1048576))} //nolint:gosec
 				if (i/8)%2 == 1 {
 					sp.A.MaxReasm = uint32(r.Pick(4, 16, 64)) //nolint:gosec
 				}
